@@ -620,9 +620,12 @@ impl World {
                                 out.extend_from_slice(b"list_OK\n");
                             }
                         }
-                        Err(e) => {
+                        Err(f) => {
+                            if let Some(p) = &f.partial {
+                                encode_frame(p, &mut out, &mut offs);
+                            }
                             offs.push(out.len());
-                            e.encode_into(&mut out);
+                            f.error.encode_into(&mut out);
                             failed = true;
                             break;
                         }
@@ -690,9 +693,12 @@ impl World {
                 offs.push(out.len());
                 out.extend_from_slice(b"OK\n");
             }
-            Err(e) => {
-                offs.push(0);
-                e.encode_into(&mut out);
+            Err(f) => {
+                if let Some(p) = &f.partial {
+                    encode_frame(p, &mut out, &mut offs);
+                }
+                offs.push(out.len());
+                f.error.encode_into(&mut out);
             }
         }
         if g.server_closed {
@@ -702,11 +708,11 @@ impl World {
     }
 
     /// Execute one request line; `idx` is its index within a command list.
-    fn execute(&self, g: &mut Inner, line: &[u8], idx: u64) -> Result<AFrame, AError> {
+    fn execute(&self, g: &mut Inner, line: &[u8], idx: u64) -> Result<AFrame, Fail> {
         g.requests_executed += 1;
         let (name, args) = match tokenize(line) {
             Ok(x) => x,
-            Err(e) => return Err(AError { code: 5, index: idx, command: None, message: e.name().to_string() }),
+            Err(e) => return Err(AError { code: 5, index: idx, command: None, message: e.name().to_string() }.into()),
         };
         let name = String::from_utf8_lossy(&name).to_string();
         let arg = |k: usize| -> String { args.get(k).map(|a| String::from_utf8_lossy(a).to_string()).unwrap_or_default() };
@@ -720,8 +726,8 @@ impl World {
                         g.authed = true;
                         Ok(AFrame::empty())
                     }
-                    PasswordVerdict::Accept => Err(ack(3, "incorrect password".into())),
-                    PasswordVerdict::Reject(code) => Err(ack(code, "incorrect password".into())),
+                    PasswordVerdict::Accept => Err(ack(3, "incorrect password".into()).into()),
+                    PasswordVerdict::Reject(code) => Err(ack(code, "incorrect password".into()).into()),
                     PasswordVerdict::Close => {
                         g.server_closed = true;
                         g.push(EvKind::ServerClosed);
@@ -735,11 +741,12 @@ impl World {
             };
         }
         if !g.authed {
-            return Err(ack(4, format!("you don't have permission for \"{}\"", name)));
+            return Err(ack(4, format!("you don't have permission for \"{}\"", name)).into());
         }
         match name.as_str() {
             "vreq" => Ok(vreq_reply(num(0), num(1), if args.len() > 3 { num(3) } else { 0 }, num(2))),
-            "vfail" => Err(vfail_error(num(0), num(1), idx, num(2))),
+            // `vfail K N CODE [partial]`: fails, optionally after having printed part of its output
+            "vfail" => Err(Fail { partial: if args.len() > 3 { Some(vpartial_output(num(0), num(1))) } else { None }, error: vfail_error(num(0), num(1), idx, num(2)) }),
             "ping" => Ok(AFrame::empty()),
             "close" => {
                 g.server_closed = true;
@@ -770,15 +777,15 @@ impl World {
             "currentsong" => Ok(AFrame::empty()),
             "readpicture" | "albumart" => {
                 let Some(art) = g.cfg.art.clone() else {
-                    return Err(ack(5, format!("unknown command \"{}\"", name)));
+                    return Err(ack(5, format!("unknown command \"{}\"", name)).into());
                 };
                 let embedded = name == "readpicture";
                 if embedded && !art.readpicture_supported {
-                    return Err(ack(5, "unknown command \"readpicture\"".into()));
+                    return Err(ack(5, "unknown command \"readpicture\"".into()).into());
                 }
                 let code = if embedded { art.embedded_ack } else { art.cover_ack };
                 if code != 0 {
-                    return Err(ack(code, "scripted art failure".into()));
+                    return Err(ack(code, "scripted art failure".into()).into());
                 }
                 let offset = num(1) as usize;
                 let (data, mime) = if embedded {
@@ -794,7 +801,7 @@ impl World {
                     }
                 };
                 if offset > data.len() {
-                    return Err(ack(2, "Bad file offset".into()));
+                    return Err(ack(2, "Bad file offset".into()).into());
                 }
                 let end = (offset + art.limit.max(1)).min(data.len());
                 let mut fields = vec![("size".to_string(), format!("{}", data.len()))];
@@ -803,9 +810,26 @@ impl World {
                 }
                 Ok(AFrame { binary: Some((fields.len(), data[offset..end].to_vec())), fields })
             }
-            _ => Err(ack(5, format!("unknown command \"{}\"", name))),
+            _ => Err(ack(5, format!("unknown command \"{}\"", name)).into()),
         }
     }
+}
+
+/// A failing command: the ACK, optionally preceded by output the command had already printed.
+pub struct Fail {
+    pub partial: Option<AFrame>,
+    pub error: AError,
+}
+
+impl From<AError> for Fail {
+    fn from(error: AError) -> Fail {
+        Fail { partial: None, error }
+    }
+}
+
+/// What `vfail … partial` prints before failing.
+pub fn vpartial_output(k: u64, n: u64) -> AFrame {
+    AFrame { fields: vec![("id".to_string(), format!("{}-{}-partial", k, n)), ("file".to_string(), "half/listed.mp3".to_string())], binary: None }
 }
 
 fn frame1(k: &str, v: impl ToString) -> AFrame {
